@@ -288,6 +288,7 @@ func (r *Reader) initFields() error {
 			// Ignore this for avoiding infinite loop of the reference.
 			// The example case where this can occur is when tar contains the root
 			// directory itself (e.g. "./", "/").
+			ent.NumLink++ // The root directory itself(.); same link count as the implicitly created root.
 			continue
 		}
 		pdir := r.getOrCreateDir(pdirName)
@@ -319,7 +320,7 @@ func (r *Reader) initFields() error {
 			Name:    "",
 			Type:    "dir",
 			Mode:    0755,
-			NumLink: 1,
+			NumLink: 2, // The directory itself(.) and the parent link to this directory.
 		}
 	}
 
